@@ -156,6 +156,12 @@ class FinamInterp(Interp):
             return isinstance(v, Sym) and v.op in ("time",) or self.order.lookup(v) is not None
         raise Undecided(f"isinstance({v!r}, {name})", node)
 
+    def decide(self, cond, node):
+        # datetimes (ranked terms) are truthy
+        if not (isinstance(cond, Sym) and cond.op in ("lt", "le", "eq", "ne", "not")) and self.order.lookup(cond) is not None:
+            return True
+        return super().decide(cond, node)
+
     # comparisons -----------------------------------------------------------
     def sym_compare(self, op, left, right, node):
         if isinstance(left, Sym) and isinstance(right, Sym) and left.op == "enum" and right.op == "enum":
